@@ -312,11 +312,60 @@ def fixed_cases():
   ]
 
 
+def evolved_cases(rng, nhist, steps, maxlen):
+  """Cases taken from lists that grew by applying prepare_inserts results (what a table really looks like after a
+  history): hammering one spot, several spots at once, both ends, random spots."""
+  import relabeling
+  out = []
+  for _ in range(nhist):
+    orig = [float(i + 1) for i in range(rng.choice([0, 2, 4, 6]))]
+    style = rng.choice(['multi', 'left', 'right', 'ends', 'random', 'multi'])
+    spots = None
+    for _step in range(steps):
+      n = len(orig)
+      if n > maxlen:
+        break
+      if style == 'multi' and n:
+        if spots is None or rng.random() < 0.05:
+          spots = [rng.randrange(n) for _ in range(rng.randint(1, 4))]
+        keys = []
+        for sp in spots:
+          sp = min(sp, n - 1)
+          keys.append(orig[sp])
+          if rng.random() < 0.7:
+            keys.append(nf(orig[sp]))
+          if rng.random() < 0.3 and sp + 1 < n:
+            keys.append(nf(orig[sp + 1]))
+          if rng.random() < 0.3 and sp > 0:
+            keys.append(orig[sp - 1])
+        rng.shuffle(keys)
+      elif style == 'left' and n:
+        keys = [orig[min(2, n - 1)]] * rng.randint(1, 3)
+      elif style == 'right' and n:
+        keys = [nf(orig[min(1, n - 1)])] * rng.randint(1, 3)
+      elif style == 'ends':
+        keys = [-INF, INF]
+      else:
+        keys = [rng.choice(orig + [0.0, INF]) if orig else 1.0 for _ in range(rng.randint(1, 5))]
+      out.append((list(orig), keys, 'evolved-' + style))
+      r = run_impl(orig, keys)
+      if r[0] != 'ok':
+        break
+      new = list(orig)
+      for i, p in r[1]:
+        new[i] = p
+      orig = sorted(new + r[2])
+  return out
+
+
 def gen_cases(ctx):
   out = [(o, k, 'fixed') for (o, k) in fixed_cases()]
-  for _ in range(ctx.n(500, 12000)):
+  for _ in range(ctx.n(330, 12000)):
     o, mode = gen_orig(ctx.rng)
     out.append((o, gen_keys(ctx.rng, o), mode))
+  ev = evolved_cases(ctx.rng, ctx.n(8, 150), ctx.n(40, 120), ctx.n(60, 250))
+  step = max(1, len(ev) // ctx.n(130, 6000))
+  out.extend(ev[::step])          # a sample of the steps (all of them were run through the implementation)
   if ctx.tier == 'thorough':
     # exhaustive small scope: every strictly increasing list of <= 3 positions out of 7 consecutive doubles around each
     # anchor, with every batch of <= 2 requests from the same doubles and +-inf
@@ -345,13 +394,15 @@ def hz(n):
 
 
 def hzlist(ns):
+  if not ns:
+    return '(@nil Z)'             # keep every case fully typed (core writes the case list without annotation)
   return '[' + '; '.join(hz(n) for n in ns) + ']'
 
 
 def coq_outcome(r):
   if r[0] == 'exc':
-    return '(%s, [], [])' % hz(r[1])
-  adj = core.coq_list(['(%s, %s)' % (hz(i), hz(bits(p))) for i, p in r[1]])
+    return '(%s, (@nil (Z * Z)), (@nil Z))' % hz(r[1])
+  adj = core.coq_list(['(%s, %s)' % (hz(i), hz(bits(p))) for i, p in r[1]]) if r[1] else '(@nil (Z * Z))'
   return '(0%%Z, %s, %s)' % (adj, hzlist([bits(x) for x in r[2]]))
 
 
@@ -396,7 +447,7 @@ def op_cases(ctx):
   def emit(op, x, y, n, res):
     out.append('(%d%%Z, %s, %s, %s, %s)' % (op, hz(bits(x)), hz(bits(y)), hz(n),
                                              hzlist([b(v) if isinstance(v, float) else v for v in res])))
-  for _ in range(ctx.n(1500, 30000)):
+  for _ in range(ctx.n(1000, 30000)):
     x, y = rnd_float(), rnd_float()
     if rng.random() < 0.2:
       y = rng.choice([x, nf(x) if math.isfinite(x) else x, -x])
@@ -465,6 +516,18 @@ def correspond(ctx):
   rejected = ctx.run_cases('cert', imports, 'check_bits', [coq[i] for i in okidx], shard=ctx.n(150, 800), timeout=900)
   ctx._c20_rejected = set(okidx[j] for j in rejected)
   ctx.extra['certified_cases'] = len(okidx) - len(rejected)
+  # 2b. how many of them are also covered by the proved total-correctness theorem (C20_total_no_renumbering_partial):
+  #     "failing" indexes of the negated hypothesis = cases on the no-renumbering path with well-formed doubles
+  sample = okidx[:ctx.n(250, 4000)]
+  covered = ctx.run_cases('plain', imports,
+                          '(fun c => let o := map decode (fst (fst c)) in let k := map decode (snd (fst c)) in '
+                          'negb (check_pre o k && forallb wf_flb o && plain_path o k))',
+                          [coq[i] for i in sample], shard=ctx.n(150, 800), timeout=900)
+  ctx.extra['covered_by_total_theorem'] = '%d of %d sampled results' % (len(covered), len(sample))
+  for j in covered:
+    if ctx._c20[sample[j]][3][1]:
+      ctx.broken('theorem/implementation mismatch',
+                 'plain_path holds but the implementation adjusted rows: %r' % (ctx._c20[sample[j]][:2],))
   # 3. primitives
   ops = op_cases(ctx)
   badops = ctx.run_cases('ops', imports, 'op_bits', ops, shard=ctx.n(800, 4000), timeout=900)
